@@ -11,13 +11,276 @@ import DswModel.Tie.GzArith
 namespace Dsw.Tie
 open Dsw Dsw.Py
 
+namespace SwValid
+open GzTie
+
+/-! ### mask cells -/
+
+/-- one cell of a mask array. -/
+def cellPV (asInt b : Bool) : PV := if asInt then .int (if b then 1 else 0) else .bool b
+
+theorem maskPV_eq (asInt : Bool) (m : Mask) : maskPV asInt m = .arr (m.toList.map (cellPV asInt)) := rfl
+
+theorem truthy_cellPV (asInt b : Bool) : (cellPV asInt b).truthy = b := by
+  cases asInt <;> cases b <;> rfl
+
+theorem asInt?_cellPV (asInt b : Bool) : (cellPV asInt b).asInt? = some (if b then 1 else 0) := by
+  cases asInt <;> cases b <;> rfl
+
+/-- `vertices[w]` for a cell inside the mask. -/
+theorem pyIndex_maskPV (asInt : Bool) {m : Mask} {w : Nat} (h : w < m.size) :
+    pyIndex (maskPV asInt m) (.int (w : Int)) = .ok (cellPV asInt (m.getD w false)) := by
+  rw [maskPV_eq, pyIndex_arr_getD (by simpa using h)]
+  simp [List.getD_eq_getElem?_getD, Array.getD_eq_getD_getElem?, h]
+
+theorem mapM_asInt?_cells (asInt : Bool) (l : List Bool) :
+    (l.map (cellPV asInt)).mapM PV.asInt? = some (l.map fun b => if b then 1 else 0) := by
+  induction l with
+  | nil => rfl
+  | cons x xs ih => simp [List.mapM_cons, ih, asInt?_cellPV]
+
+theorem cnt_eq_count (l : List Bool) :
+    (l.map fun b => if b then (1 : Int) else 0).foldl (· + ·) 0 = ((l.filter id).length : Int) := by
+  induction l with
+  | nil => rfl
+  | cons b bs ih =>
+    rw [List.map_cons, List.foldl_cons, foldl_add_shift, ih]
+    cases b <;> simp <;> omega
+
+/-- `sum(vertices)`. -/
+theorem npSum_maskPV (asInt : Bool) (m : Mask) : npSum (maskPV asInt m) = .ok (.int (m.count : Int)) := by
+  simp only [maskPV_eq, npSum, mapM_asInt?_cells, cnt_eq_count, Mask.count]
+
+theorem pyLen_maskPV (asInt : Bool) (m : Mask) : pyLen (maskPV asInt m) = .ok (.int (m.size : Int)) := by
+  simp [maskPV_eq]
+
+/-! ### true division -/
+
+theorem pyTrueDiv_nat_pos (a : Nat) {b : Nat} (hb : 0 < b) :
+    pyTrueDiv (.int (a : Int)) (.int (b : Int)) = .ok (.rat (a : Int) (b : Int)) := by
+  have h1 : ¬ ((b : Int) = 0) := by omega
+  have h2 : (b : Int) > 0 := by omega
+  simp only [pyTrueDiv, asInt?_int, h1, h2, if_false, if_true]
+
+theorem pyGt_rat_zero (n d : Int) : pyGt (.rat n d) (.int 0) = .ok (decide (0 < n)) := by
+  simp [pyGt, pyLt, PV.asInt?]
+
+/-! ### rows -/
+
+/-- an entry of the induced accessor. -/
+def cellI (m : Mask) (w : Nat) : Int := if m.getD w false then (w : Int) else -1
+
+/-- the row of vertex `v` in the induced accessor. -/
+def indRow (k : Nat) (m : Mask) (v : Nat) : PV :=
+  if m.getD v false then .arr ((obtainLatters k v).map fun w => .int (cellI m w)) else negRow
+
+/-- the accessor after `i` iterations of the outer loop. -/
+def rowsV (k : Nat) (m : Mask) (n i : Nat) : List PV :=
+  (List.range n).map fun v => if v < i then indRow k m v else negRow
+
+theorem rowsV_zero (k : Nat) (m : Mask) (n : Nat) : rowsV k m n 0 = List.replicate n negRow := by
+  simp [rowsV, List.map_const']
+
+theorem rowsV_getElem? {k : Nat} {m : Mask} {n i v : Nat} (h : v < n) :
+    (rowsV k m n i)[v]? = some (if v < i then indRow k m v else negRow) := by
+  simp [rowsV, h]
+
+theorem rowsV_length (k : Nat) (m : Mask) (n i : Nat) : (rowsV k m n i).length = n := by simp [rowsV]
+
+theorem rowsV_set (k : Nat) (m : Mask) (n i : Nat) :
+    (rowsV k m n i).set i (indRow k m i) = rowsV k m n (i + 1) := by
+  apply List.ext_getElem?
+  intro j
+  rw [List.getElem?_set]
+  by_cases hj : j < n
+  · rw [rowsV_getElem? hj, rowsV_getElem? hj]
+    by_cases hij : i = j
+    · subst hij; simp [rowsV_length, hj]
+    · have h1 : (j < i + 1) = (j < i) := by apply propext; omega
+      simp only [hij, if_false, h1]
+  · have h1 : (rowsV k m n i)[j]? = Option.none := List.getElem?_eq_none (by rw [rowsV_length]; omega)
+    have h2 : (rowsV k m n (i + 1))[j]? = Option.none := List.getElem?_eq_none (by rw [rowsV_length]; omega)
+    rw [h1, h2]
+    split
+    · next hij =>
+      split
+      · next hlt => rw [rowsV_length] at hlt; omega
+      · rfl
+    · rfl
+
+/-- a row that is not touched. -/
+theorem rowsV_skip (k : Nat) (m : Mask) (n i : Nat) (h : m.getD i false = false) :
+    rowsV k m n i = rowsV k m n (i + 1) := by
+  rw [← rowsV_set]
+  by_cases hi : i < n
+  · symm
+    apply set_self_of_getElem?
+    rw [rowsV_getElem? hi]
+    simp [indRow, h]
+  · rw [List.set_eq_of_length_le (by rw [rowsV_length]; omega)]
+
+theorem obtainLatters_lt (k v : Nat) {w : Nat} (h : w ∈ obtainLatters k v) : w < 4 ^ k := by
+  unfold obtainLatters at h
+  obtain ⟨j, _, rfl⟩ := List.mem_map.mp h
+  exact Nat.mod_lt _ (Nat.pow_pos (by omega))
+
+theorem rowsV_full (k : Nat) (m : Mask) : PV.arr (rowsV k m (4 ^ k) (4 ^ k)) = accPV (inducedAccessor k m) := by
+  simp only [accPV, inducedAccessor, rowsV, PV.arr.injEq]
+  simp only [Array.toList_map, Array.toList_range, List.map_map]
+  apply List.map_congr_left
+  intro v hv
+  have : v < 4 ^ k := List.mem_range.mp hv
+  simp only [this, if_true, Function.comp, indRow]
+  by_cases hmv : m.getD v false = true
+  · simp [hmv, cellI, List.map_map, Function.comp_def]
+  · simp [hmv, negRow]
+
+/-! ### the inner loop -/
+
+/-- the inner loop `for position, w in enumerate(latters): if vertices[w]: accessor[v][position] = w`
+overwrites the tail `suf` (still all `-1`) of row `v`. -/
+theorem setrow_loop (fuel v : Nat) (asInt : Bool) (m : Mask) (xs : List Nat) (hxs : ∀ x ∈ xs, x < m.size) :
+    ∀ (n : Nat) (pre rows : List PV) (e : Gen.connect_valid_graph.Env),
+      n = pre.length → e.accessor = .arr rows → e.vertex_index = .int (v : Int) →
+      e.vertices = maskPV asInt m →
+      rows[v]? = some (.arr (pre ++ List.replicate xs.length (.int (-1)))) →
+      ∃ e', forLoop (Gen.connect_valid_graph.for2_body fuel)
+          (enumFrom n (xs.map fun (x : Nat) => PV.int (x : Int))) e = .ok (.norm e') ∧
+        e'.accessor = .arr (rows.set v (.arr (pre ++ xs.map fun w => PV.int (cellI m w)))) ∧
+        e'.vertices = maskPV asInt m ∧ e'.observed_length = e.observed_length := by
+  induction xs with
+  | nil =>
+    intro n pre rows e _ ha _ hm hr
+    simp only [List.length_nil, List.replicate_zero] at hr
+    exact ⟨e, rfl, by rw [ha, List.map_nil, set_self_of_getElem? hr], hm, rfl⟩
+  | cons x xs ih =>
+    intro n pre rows e hn ha hv hm hr
+    have hx : x < m.size := hxs x (by simp)
+    have hvl : v < rows.length := by
+      rcases Nat.lt_or_ge v rows.length with h | h
+      · exact h
+      · rw [List.getElem?_eq_none h] at hr; cases hr
+    have hj : (pre ++ List.replicate (x :: xs).length (PV.int (-1)))[n]? = some (.int (-1)) := by
+      subst hn; simp [List.replicate_succ]
+    have hset : ∀ y : Int, (pre ++ List.replicate (x :: xs).length (PV.int (-1))).set n (.int y) =
+        (pre ++ [.int y]) ++ List.replicate xs.length (PV.int (-1)) := by
+      intro y; subst hn; simp [List.replicate_succ]
+    obtain ⟨e1, hb, ha1, hv1, hm1, ho1⟩ : ∃ e1,
+        Gen.connect_valid_graph.for2_body fuel (.tup [.int (n : Int), .int (x : Int)]) e =
+          .ok (.norm e1) ∧
+        e1.accessor = .arr (rows.set v (.arr ((pre ++ [.int (cellI m x)]) ++
+          List.replicate xs.length (PV.int (-1))))) ∧
+        e1.vertex_index = .int (v : Int) ∧ e1.vertices = maskPV asInt m ∧
+        e1.observed_length = e.observed_length := by
+      simp only [Gen.connect_valid_graph.for2_body, pyUnpack_two_tup, bnd_ok, ha, hv, hm,
+        List.getD_cons_zero, List.getD_cons_succ, pyIndex_maskPV asInt hx, truthy_cellPV]
+      by_cases hc : m.getD x false = true
+      · simp only [hc, if_true, npSetItem2_nat hr hj, bnd_ok, hset, cellI]
+        exact ⟨_, rfl, rfl, by first | rfl | exact hv, by first | rfl | exact hm, rfl⟩
+      · have hc' : m.getD x false = false := by simpa using hc
+        simp only [hc', Bool.false_eq_true, if_false, cellI]
+        refine ⟨_, rfl, ?_, by first | rfl | exact hv, by first | rfl | exact hm, rfl⟩
+        show PV.arr rows = _
+        rw [← hset (-1), set_self_of_getElem? hj, set_self_of_getElem? hr]
+    obtain ⟨e', hl, ha', hm', ho'⟩ := ih (fun y hy => hxs y (by simp [hy])) (n + 1)
+      (pre ++ [.int (cellI m x)])
+      (rows.set v (.arr ((pre ++ [.int (cellI m x)]) ++ List.replicate xs.length (PV.int (-1))))) e1
+      (by simp [hn]) ha1 hv1 hm1 (by rw [List.getElem?_set_self hvl])
+    refine ⟨e', ?_, ?_, hm', ho'.trans ho1⟩
+    · rw [List.map_cons, enumFrom_cons, forLoop_cons_norm hb, hl]
+    · rw [ha', List.set_set, List.map_cons, List.append_assoc]; rfl
+
+def AccInv (k : Nat) (asInt : Bool) (m : Mask) (i : Nat) (e : Gen.connect_valid_graph.Env) : Prop :=
+  e.observed_length = .int (k : Int) ∧ e.vertices = maskPV asInt m ∧
+    e.accessor = .arr (rowsV k m (4 ^ k) i)
+
+/-- the inner loop on the state reached after `i` iterations of the outer loop. -/
+theorem setrow_rowsV (k fuel i : Nat) (asInt : Bool) (m : Mask) (hm : m.size = 4 ^ k) (hi : i < 4 ^ k)
+    (hmi : m.getD i false = true) (e : Gen.connect_valid_graph.Env)
+    (h2 : e.accessor = .arr (rowsV k m (4 ^ k) i)) (hv : e.vertex_index = .int (i : Int))
+    (h3 : e.vertices = maskPV asInt m) (h1 : e.observed_length = .int (k : Int)) :
+    ∃ e1, forLoop (Gen.connect_valid_graph.for2_body fuel)
+        (enumFrom 0 ((obtainLatters k i).map fun (x : Nat) => PV.int (x : Int))) e = .ok (.norm e1) ∧
+      AccInv k asInt m (i + 1) e1 := by
+  obtain ⟨e', hl, ha', hm', ho'⟩ := setrow_loop fuel i asInt m (obtainLatters k i)
+    (fun x hx => by rw [hm]; exact obtainLatters_lt k i hx) 0 [] (rowsV k m (4 ^ k) i) e rfl h2 hv h3
+    (by rw [rowsV_getElem? hi]; simp [negRow, obtainLatters])
+  refine ⟨e', hl, ho'.trans h1, hm', ?_⟩
+  rw [ha', List.nil_append, ← rowsV_set]
+  simp only [indRow, hmi, if_true]
+
+/-! ### the outer loop -/
+
+theorem accessor_body (k fuel i : Nat) (asInt : Bool) (m : Mask) (hm : m.size = 4 ^ k) (hi : i < 4 ^ k)
+    (e : Gen.connect_valid_graph.Env) (h : AccInv k asInt m i e) :
+    ∃ e', Gen.connect_valid_graph.for1_body fuel (.int (i : Int)) e = .ok (.norm e') ∧
+      AccInv k asInt m (i + 1) e' := by
+  obtain ⟨h1, h3, h2⟩ := h
+  have him : i < m.size := by rw [hm]; exact hi
+  simp only [Gen.connect_valid_graph.for1_body, h1, h3, pyIndex_maskPV asInt him, truthy_cellPV, bnd_ok]
+  apply seq_exists_of_norm (AccInv k asInt m (i + 1))
+  · by_cases hc : m.getD i false = true
+    · simp only [hc, if_true, tie_obtain_latters, bnd_ok, pyEnumerate_natsPV, pyIter_list]
+      exact setrow_rowsV k fuel i asInt m hm hi hc _ (by exact h2) (by rfl)
+        (by first | rfl | exact h3) (by first | rfl | exact h1)
+    · have hc' : m.getD i false = false := by simpa using hc
+      simp only [hc', Bool.false_eq_true, if_false]
+      refine ⟨_, rfl, by first | rfl | exact h1, by first | rfl | exact h3, ?_⟩
+      show e.accessor = _
+      rw [h2, rowsV_skip k m _ i hc']
+  · intro e1 h
+    exact ⟨e1, by simp only [Gen.connect_valid_graph.k1, bnd_ok, ite_self], h⟩
+
+/-! ### the function -/
+
+theorem npOnes_nat_four' (n : Nat) :
+    npOnes (.tup [.int (n : Int), .int ((4 : Nat) : Int)]) =
+      .ok (.arr (List.replicate n (.arr (List.replicate 4 (.int 1))))) := npOnes_nat_four n
+
+theorem npNeg_ones' (k : Nat) (m : Mask) (n : Nat) :
+    npNeg (.arr (List.replicate n (.arr (List.replicate 4 (.int 1))))) = .ok (.arr (rowsV k m n 0)) := by
+  rw [rowsV_zero, npNeg, npNegList_ones]
+  rfl
+
+theorem k3_spec (fuel : Nat) (e : Gen.connect_valid_graph.Env) :
+    Gen.connect_valid_graph.k3 fuel e = .ok (.ret e.accessor) := by
+  simp only [Gen.connect_valid_graph.k3, bnd_ok, ite_self, seq_norm, Gen.connect_valid_graph.k2]
+
+theorem k4_spec (k fuel : Nat) (asInt : Bool) (m : Mask) (hm : m.size = 4 ^ k)
+    (e : Gen.connect_valid_graph.Env) (h1 : e.observed_length = .int (k : Int))
+    (h3 : e.vertices = maskPV asInt m) (hn : e.nucleotides = .str ['A', 'C', 'G', 'T']) :
+    callResult (Gen.connect_valid_graph.k4 fuel e) = (connectValidGraph k (some m)).map accPV := by
+  have hpos : 0 < m.size := by rw [hm]; exact Nat.pow_pos (by omega)
+  simp only [Gen.connect_valid_graph.k4, h1, h3, hn, npSum_maskPV, pyLen_maskPV, bnd_ok,
+    pyTrueDiv_nat_pos _ hpos, pyGt_rat_zero, connectValidGraph]
+  by_cases hc : m.count > 0
+  · have hc' : (0 : Int) < (m.count : Int) := by omega
+    simp only [hc, hc', decide_true, if_true, pyLen_ACGT, bnd_ok, pyPow_nat, pyInt_int, npOnes_nat_four',
+      npNeg_ones' k m, pyRange1_nat, pyIter_list, R_map_ok]
+    apply callResult_seq_of_norm (AccInv k asInt m (4 ^ k))
+    · exact forLoop_range_inv (AccInv k asInt m) _
+        (fun i hi e he => accessor_body k fuel i asInt m hm hi e he)
+        ⟨by first | rfl | exact h1, by first | rfl | exact h3, rfl⟩
+    · intro e' h
+      rw [k3_spec, callResult_ret, h.2.2, rowsV_full]
+  · have hc' : ¬ (0 : Int) < (m.count : Int) := by omega
+    simp only [hc, hc', decide_false, Bool.false_eq_true, if_false, callResult_error]
+    rfl
+
+end SwValid
+
+open SwValid GzTie
+
 theorem tie_connect_valid_graph (k : Nat) (m : Mask) (asInt : Bool) (fuel : Nat) (verbose : Bool) (hm : m.size = 4 ^ k) :
     Gen.connect_valid_graph fuel (.int (k : Int)) (maskPV asInt m) (.bool verbose) =
       (connectValidGraph k (some m)).map accPV := by
-  sorry
+  have hnone : pyIsNone (maskPV asInt m) = false := rfl
+  simp only [Gen.connect_valid_graph, Gen.connect_valid_graph.body, hnone, bnd_ok, Bool.false_eq_true,
+    if_false, seq_norm, Gen.connect_valid_graph.k5, ite_self]
+  exact k4_spec k fuel asInt m hm _ rfl rfl rfl
 
 theorem tie_connect_valid_graph_none (k fuel : Nat) (verbose : Bool) :
     Gen.connect_valid_graph fuel (.int (k : Int)) .none (.bool verbose) = .error .valueError := by
-  sorry
+  rfl
 
 end Dsw.Tie
